@@ -13,11 +13,33 @@ ASSUMPTIONS = [
     "named elements is then applied to the copy, one at a time",
     "base netlists: reader-built from the independent writers' texts (EDIF E1/E2/E3, Verilog base, EBLIF B1)",
 ]
-SOURCES = ("edif:E1", "edif:E2", "edif:E3", "edif:E7", "edif:E1+api", "edif:E2+uniquify", "edif:E5+flatten", "verilog", "eblif:B1")
+SOURCES = ("edif:E1", "edif:E2", "edif:E3", "edif:E7", "edif:E1+api", "edif:E2+uniquify", "edif:E5+flatten", "verilog", "eblif:B1", "api:wide")
 
 
 def load(src):
     kind, _, which = src.partition(":")
+    if kind == "api":
+        # twelve-bit buses next to one-bit ports whose names end in a digit (addr[10] / addr1): a comparison by a
+        # label glued together from name and index cannot tell them apart
+        s = core.sdn()
+        n = s.Netlist(name="wide")
+        lib = n.create_library(name="work")
+        mem = lib.create_definition(name="mem")
+        for nm, wd in (("addr", 12), ("addr1", 1), ("d", 12), ("d1", 1)):
+            mem.create_port(name=nm, pins=wd, direction=s.IN)
+        top = lib.create_definition(name="top")
+        tp = top.create_port(name="addr", pins=12, direction=s.IN)
+        top.create_port(name="addr1", pins=1, direction=s.IN)
+        bus = top.create_cable(name="addr", wires=12)
+        dbus = top.create_cable(name="d", wires=12)
+        u = top.create_child(name="u", reference=mem)
+        for k in range(12):
+            bus.wires[k].connect_pin(tp.pins[k])
+            bus.wires[k].connect_pin(u.pins[mem.ports[0].pins[k]])
+            dbus.wires[k].connect_pin(u.pins[mem.ports[2].pins[k]])
+        n.top_instance = top
+        n.top_instance.name = "top_i"
+        return n, ".edf"
     if kind == "edif":
         n = c05.parse_text(edif_writer.render(fdesigns.BASES[which.split("+")[0]]()))
         if which.endswith("+uniquify") or which.endswith("+flatten"):
@@ -112,6 +134,15 @@ def mutations(n):
                     pr[pi]["value"] = "changed" if pr[pi]["value"] != "changed" else "changed2"
                     x["EDIF.properties"] = pr
                 out.append(("property-value", chg))
+
+                def retype(x=x, pi=pi):
+                    # the same digits / word under another type: (integer 8) <-> (string "8"), (boolean (true)) -> "True"
+                    import copy
+                    pr = copy.deepcopy(x["EDIF.properties"])
+                    v = pr[pi]["value"]
+                    pr[pi]["value"] = str(v) if not isinstance(v, str) else (int(v) if v.isdigit() else v + " ")
+                    x["EDIF.properties"] = pr
+                out.append(("property-retyped", retype))
             if props:
                 def cut(x=x, how="last"):
                     import copy
